@@ -227,6 +227,11 @@ def collect(crate, body):
             s['text'] = f"{T.show(e['a'])} / {T.show(e['b'])}"
         elif k == 'panic':
             s['text'] = 'panic via ' + '/'.join(s['mac'] or ['?']) + ' when ' + (' && '.join(T.show(c) for c in e['pc']) or 'reached')
+            # the condition under which it fires, in canonical form (compared with the vetted entry: a weakened or
+            # strengthened assert changes which inputs panic)
+            cs = T.canon(T.tand(*e['pc']), True) if e['pc'] else T.TRUE
+            conj = cs[1] if isinstance(cs, tuple) and cs and cs[0] == 'and' else (cs,)
+            s['when'] = canon_text(' && '.join(sorted(T.show(x) for x in conj)))
         # sites of the time.rs conversion API keep the callee in their key (the obligation belongs to the call site);
         # sites reached through a private helper are keyed by the function they are analysed in (helper extraction /
         # inlining does not change a key)
@@ -276,14 +281,91 @@ def canon_text(t):
     return t
 
 
+# tables whose entries are non-decreasing by a documented type invariant (FromIterator enforces it for the delta-min
+# vector, Curve::new documents it; cumulative cost tables likewise): v[a] - v[b] >= 0 whenever a >= b
+MONOTONE_TABLES = ('min_distance', 'wcet_of_n_jobs')
+
+
+def _linear_facts(pc):
+    """the linear conjuncts of a path condition, as forms <= 0 (non-linear conjuncts are dropped: weakening is sound)"""
+    from . import linarith as LA
+    out = []
+    for c in pc:
+        cs = c[1] if isinstance(c, tuple) and c and c[0] == 'and' else (c,)
+        for x in cs:
+            d = LA._conds(x)
+            if d is not None and len(d) == 1:
+                out.extend(d[0])
+    return out
+
+
+def la_nonneg(goal, pc):
+    """goal >= 0 by linear entailment with quotient / remainder facts (sa/linarith.py).  A quotient that occurs in the
+    goal has been evaluated before the site is reached, so its divisor is at least 1 there."""
+    from . import linarith as LA
+    goal = T.as_lin(goal)
+    base = _linear_facts(pc)
+    for x in T.subterms(goal):
+        if isinstance(x, tuple) and x and x[0] in ('div', 'rem'):
+            base.append(T.sub(T.const(1), T.as_lin(x[2])))
+            base.append(T.neg(T.as_lin(x[1])))
+    if any(isinstance(r, tuple) and r and r[0] in LA.SPLITTABLE for l in base + [goal] for r, _ in T.as_lin(l)[2]):
+        sg = LA.split(goal)
+        if sg is None:
+            return None
+        alts = []
+        for g2, v2 in sg:
+            ex = LA._expand_guards(base + g2)
+            if ex is None:
+                return None
+            alts += [(gg, v2) for gg in ex]
+    else:
+        alts = [(base, goal)]
+    n = 0
+    for facts, v in alts:
+        if LA.infeasible(facts):
+            continue
+        for f in LA.closure(facts, [v]):
+            if LA.infeasible(f):
+                continue
+            n += 1
+            if not LA.entails_le0(f, T.neg(T.as_lin(v))):
+                return None
+    return f'linear entailment with quotient/remainder facts ({n} case(s))'
+
+
+def monotone_table_nonneg(goal, pc):
+    """goal = v[a] - v[b] + (non-negative rest) for a monotone table v, with a >= b entailed"""
+    goal = T.as_lin(goal)
+    pos_ = [(r, c) for r, c in goal[2] if c > 0 and isinstance(r, tuple) and r and r[0] == 'idx']
+    neg_ = [(r, c) for r, c in goal[2] if c < 0]
+    if len(neg_) != 1 or neg_[0][1] != -1 or not (isinstance(neg_[0][0], tuple) and neg_[0][0] and neg_[0][0][0] == 'idx') or goal[1] < 0:
+        return None
+    lo = neg_[0][0]
+    base = lo[1]
+    name = base[2] if isinstance(base, tuple) and len(base) == 3 and base[0] == 'f' else None
+    if name not in MONOTONE_TABLES:
+        return None
+    for hi, c in pos_:
+        if hi[1] == base and c >= 1:
+            d = T.sub(T.as_lin(hi[2]), T.as_lin(lo[2]))
+            if implies_nonneg(d, pc) or la_nonneg(d, pc):
+                return f'{name} is a non-decreasing table (documented type invariant) and the first index is not smaller'
+    return None
+
+
 def discharge(s):
     """-> reason string if the site is discharged by its path condition, else None"""
     k = s['kind']
     if k in ('sub', 'index', 'div'):
-        if 'goals' in s:
-            rs = [implies_nonneg(g, s['pc']) for g in s['goals']]
-            return None if any(r is None for r in rs) else '; '.join(rs)
-        return implies_nonneg(s['goal'], s['pc'])
+        goals = s['goals'] if 'goals' in s else [s['goal']]
+        rs = []
+        for g in goals:
+            r = implies_nonneg(g, s['pc']) or (monotone_table_nonneg(g, s['pc']) if k == 'sub' else None) or la_nonneg(g, s['pc'])
+            if r is None:
+                return None
+            rs.append(r)
+        return '; '.join(rs)
     if k == 'unwrap':
         arg = s['arg']
         for c in s['pc']:
